@@ -156,3 +156,14 @@ pub mod symbol_db {
         selector.best().map(|id| id.as_usize() - 1)
     }
 }
+
+pub mod layout_rules {
+    /// See `crate::layout_rules::verif_lookup`. `Err(())` if a pattern is rejected with a diagnostic.
+    #[allow(clippy::type_complexity)]
+    pub fn lookup(
+        rules: &[(&[u8], Option<&[u8]>, bool)],
+        queries: &[(&[u8], Option<&[u8]>)],
+    ) -> Result<Vec<Option<(usize, bool)>>, ()> {
+        crate::layout_rules::verif_lookup(rules, queries).map_err(|_| ())
+    }
+}
